@@ -94,7 +94,8 @@ def suite_smiles(tier: str, seed: int, mult: int) -> SuiteResult:
             cut = rng.randint(1, n - 1) if nfiles == 2 else n
             smi_paths = []
             for j, chunk in enumerate([smiles[:cut], smiles[cut:]][:nfiles]):
-                p = wd / f"in{j}.smi"
+                # the files are given explicitly: their order on the command line is the input order, whatever their names
+                p = wd / (f"in{j}.smi" if k % 2 else ["zinc.smi", "chembl.smi"][j])
                 p.write_text("".join(s + "\n" for s in chunk))
                 smi_paths.append(p)
             out = wd / "out"
